@@ -32,10 +32,12 @@ def c01(cx):
              "are dominated by look-ahead evidence on every path), R-PRECONSUME (a dispatcher's pre-consumed first "
              'character is one the scanner loop would consume with the same effects, add_line included), '
              'R-UNCONSUME (a cursor put back to a saved copy takes back the line starts recorded since); '
-             'structural R-RESTORE (rollback truncates the line table). Decides the line-table half; column '
+             'structural R-RESTORE (rollback truncates the line table), R-UNITS-COLUMN (R-UNITS in the functions that '
+             'compute a column: a column is a difference of two code-point offsets, never of a byte and a code-point offset). Decides the line-table half; column '
              'arithmetic via C05.')
 def c04(cx):
     lea_glue.apply(cx, ["R-NEWLINE", "R-ADVANCE-EVIDENCE", "R-PRECONSUME", "R-OFFSET-PROVENANCE", "R-UNCONSUME"])
+    rules_struct.r_units(cx, ["dev-none-stable"], only_fns=rules_struct.column_fns, rule_name="R-UNITS-COLUMN")
     rules_struct.r_restore(cx, cx.facts("dev-none-stable"))
     rules_bulk.run(cx)
 
@@ -50,11 +52,12 @@ def c04(cx):
              'exactly the looked-up text: the key is the whole scanned identifier, the token ends where it ends, '
              'and the length shortcut never skips a key length), R-STOP-SET (a whitespace token ends only in front of '
              'a non-whitespace character), R-REPLAY-AGREE (a loop that re-walks a stretch validated by a look-ahead '
-             'loop stops where the look-ahead stopped). Decides these per-type shape clauses, not the '
+             'loop stops where the look-ahead stopped), R-ERR-NAMES-TOKEN (an unterminated comment / literal is in the '
+             'buffer, and last, when its error is recorded: the error names it). Decides these per-type shape clauses, not the '
              "keyword tables' content.")
 def c06(cx):
     lea_glue.apply(cx, ["R-CHANNEL", "R-ADVANCE-EVIDENCE", "R-MARK-WS", "R-DELIM-SHAPE", "R-NONEMPTY", "R-SPELL", "R-ORPHAN",
-                        "R-KEYWORD-FLOW", "R-REPLAY-AGREE", "R-STOP-SET"])
+                        "R-KEYWORD-FLOW", "R-REPLAY-AGREE", "R-STOP-SET", "R-ERR-NAMES-TOKEN"])
 
 
 @prop("C09", 'LEA: R-CKPT (checkpoint typestate on every path and through every live-checkpoint region: no '
@@ -62,10 +65,11 @@ def c06(cx):
              'R-SPEC-PURITY (no error is recorded while a checkpoint is live: the error list is not rolled back), '
              "R-ERR-PAIR (each 'missing expected' error is immediately followed by its zero-width token at the "
              'same offset, and conversely), R-ERR-ORDER / R-OFFSET-PROVENANCE (error offsets are cursor snapshots, '
-             'non-decreasing along a step); structural R-ERRORS-APPEND-ONLY (the diagnostics list is only pushed '
+             'non-decreasing along a step), R-ERR-NAMES-TOKEN (an "unterminated" error is recorded after the token it '
+             'is about, so the token index it remembers is that token); structural R-ERRORS-APPEND-ONLY (the diagnostics list is only pushed '
              'to: nothing removes, reorders or replaces a recorded error).')
 def c09(cx):
-    lea_glue.apply(cx, ["R-CKPT", "R-ERR-PAIR", "R-SPEC-PURITY", "R-ERR-ORDER", "R-OFFSET-PROVENANCE"])
+    lea_glue.apply(cx, ["R-CKPT", "R-ERR-PAIR", "R-SPEC-PURITY", "R-ERR-ORDER", "R-OFFSET-PROVENANCE", "R-ERR-NAMES-TOKEN"])
     rules_struct.r_errors_append_only(cx, cx.facts("dev-none-stable"))
 
 
@@ -74,12 +78,13 @@ def c09(cx):
              "follows the consumption of the closing quote), R-PRECONSUME (a dispatcher's pre-consumed first "
              'character is not one the scanner would treat as an escape / section boundary) and R-PAYLOAD-ESCAPE '
              '(literal-buffer positions as ordered labels: a token emitted after a literal-section cut does not '
-             'take the no-payload branch); structural R-HEX-SINK, R-RESTORE and R-UNITS-PAYLOAD (R-UNITS restricted to the functions '
+             'take the no-payload branch), R-PAYLOAD-RANGE (both ends of every string payload are positions handed out by '
+             'the literal buffer, never a length); structural R-HEX-SINK, R-RESTORE and R-UNITS-PAYLOAD (R-UNITS restricted to the functions '
              'that build string payloads (the text handed to the hex decoder / the literal buffer is sliced by byte '
              'offsets, never by code-point offsets)). Decides where sections begin and end and that unquoting is '
              'reported, not the unquoted content.')
 def c07(cx):
-    lea_glue.apply(cx, ["R-SECTION", "R-PRECONSUME", "R-PAYLOAD-ESCAPE"])
+    lea_glue.apply(cx, ["R-SECTION", "R-PRECONSUME", "R-PAYLOAD-ESCAPE", "R-PAYLOAD-RANGE"])
     fx = cx.facts("dev-none-stable")
     rules_struct.r_hex_sink(cx, fx)
     rules_struct.r_restore(cx, fx)
@@ -92,9 +97,10 @@ def c07(cx):
              'pops), R-GROUP (datalines start, data and terminator are emitted together on every accepting path; a '
              'MacroLabel retype is followed by its one-character hidden colon), R-POP-OWN (a step pops a mode below '
              'its own only after identifying it, so an enclosing StringExpr / ExpectSymbol is never dropped without '
-             'its closing token).')
+             'its closing token), R-FAMILY-AGREE (the Q/K/QK flavours of a built-in pre-load the same modes as the '
+             'built-in itself).')
 def c10(cx):
-    lea_glue.apply(cx, ["R-RETYPE-GUARD", "R-EXPECT-TABLE", "R-FINALIZE-ONCE", "R-GROUP", "R-POP-OWN"])
+    lea_glue.apply(cx, ["R-RETYPE-GUARD", "R-EXPECT-TABLE", "R-FINALIZE-ONCE", "R-GROUP", "R-POP-OWN", "R-FAMILY-AGREE"])
 
 
 C13_NOT_DELIM_MODES = ("ExpectSemiOrEOF", "MacroDo", "MacroLocalGlobal", "MacroNameExpr", "MacroDefName")
@@ -106,10 +112,11 @@ C13_NOT_DELIM_MODES = ("ExpectSemiOrEOF", "MacroDo", "MacroLocalGlobal", "MacroN
              'agree on %-quoted characters: what a dispatcher consumes before handing over is what the scanner '
              'would consume without touching its nesting count), and R-WS-ORDER for the modes that decide call / '
              "definition delimiters (a mode that gives up on a blank is entered behind the whitespace skipper, so a "
-             'blank or comment in front of a comma, parenthesis or = does not turn it into text). Decides the '
+             'blank or comment in front of a comma, parenthesis or = does not turn it into text), R-FAMILY-AGREE (the '
+             'Q/K/QK flavours of a built-in lex each argument in the same mode - expression or text - as the built-in). Decides the '
              'masking mechanics, not operator classification.')
 def c13(cx):
-    lea_glue.apply(cx, ["R-NESTING-FLUSH", "R-DEPTH-GUARD", "R-PRECONSUME", "R-WS-ORDER"],
+    lea_glue.apply(cx, ["R-NESTING-FLUSH", "R-DEPTH-GUARD", "R-PRECONSUME", "R-WS-ORDER", "R-FAMILY-AGREE"],
                    only={"R-WS-ORDER": lambda k: not k.startswith(C13_NOT_DELIM_MODES)})
 
 
@@ -121,11 +128,14 @@ def c13(cx):
              'input), R-EXPECT-SURVIVES (no rollback truncation discards a pending expectation mode) and R-WS-ORDER for '
              'the two expectation modes (they are entered behind the whitespace skipper, so the diagnostic and the '
              'recovery token sit after insignificant blanks, where the delimiter was expected); structural '
-             'R-ERRORS-APPEND-ONLY (a recorded diagnostic is never taken back).')
+             'R-ERRORS-APPEND-ONLY (a recorded diagnostic is never taken back), R-FAMILY-AGREE, and R-BULK-POS '
+             '(R-BULK-AGREE for the position fields: the resolved view reports a zero-width recovery token where the '
+             'accessors do).')
 def c14(cx):
-    lea_glue.apply(cx, ["R-EXPECT-TABLE", "R-ERR-PAIR", "R-EXPECT-SURVIVES", "R-FINALIZE-ONCE", "R-WS-ORDER"],
+    lea_glue.apply(cx, ["R-EXPECT-TABLE", "R-ERR-PAIR", "R-EXPECT-SURVIVES", "R-FINALIZE-ONCE", "R-WS-ORDER", "R-FAMILY-AGREE"],
                    only={"R-WS-ORDER": lambda k: k.startswith(("ExpectSymbol<-", "ExpectSemiOrEOF<-"))})
     rules_struct.r_errors_append_only(cx, cx.facts("dev-none-stable"))
+    rules_bulk.run(cx, fields=("start", "stop", "line", "column", "end_line", "end_column"), rule_name="R-BULK-POS")
 
 
 @prop("C03", 'structural rules R-CURSOR-COUNT (every chars.next() of Cursor::advance/advance_by is matched by +1 '
@@ -149,14 +159,15 @@ def c03(cx):
              'R-CFGDIFF-MACROSEP; LEA rules R-OFFSET-PROVENANCE (byte offset, char offset and line of every '
              'emitted token are snapshots of one and the same cursor position), R-EMIT-ORDER (token starts are '
              'non-decreasing along a step) and R-UNCONSUME (putting the cursor back to a saved copy takes back the '
-             'line starts and tokens recorded for the un-consumed text).')
+             'line starts and tokens recorded for the un-consumed text), R-EOF-AT-END (on every path of finalize_lexing '
+             'the cursor is never put back and EOF is emitted at the end of the text).')
 def c02(cx):
     fx = cx.facts("dev-none-stable")
     rules_struct.r_restore(cx, fx)
     rules_struct.r_eof(cx, fx)
     rules_cfg.r_cfgdiff_macrosep(cx)
     rules_struct.r_comutate(cx, ["dev-none-stable", "dev-msep-stable"])
-    lea_glue.apply(cx, ["R-OFFSET-PROVENANCE", "R-EMIT-ORDER", "R-BOM-ORDER", "R-UNCONSUME"])
+    lea_glue.apply(cx, ["R-OFFSET-PROVENANCE", "R-EMIT-ORDER", "R-BOM-ORDER", "R-UNCONSUME", "R-EOF-AT-END"])
 
 
 @prop("C12", 'R-FRAME-BALANCE (on every lex_token path pending-statement frames and the macro nesting level change only '
@@ -166,11 +177,14 @@ def c02(cx):
              'zero consumption on a possibly-blank character is entered behind the whitespace/comment skipper or a '
              'mode that leaves a non-blank (mode push order; audited table of modes for which a blank is a '
              'terminator), R-POP-OWN (no step pops a mode it has not identified) and R-DEPTH-GUARD (an argument value '
-             'ends at a comma or parenthesis only at nesting level zero). Decides these mode-choreography clauses, '
+             'ends at a comma or parenthesis only at nesting level zero), structural R-CHARCLASS (the name-start / '
+             'name-continue predicates accept exactly the language\'s classes on ASCII, so a name valid at a call is '
+             'valid in the definition). Decides these mode-choreography clauses, '
              'not the absence of errors for all programs.')
 def c12(cx):
     lea_glue.apply(cx, ["R-CKPT", "R-PENDING", "R-WS-ORDER", "R-EXPECT-TABLE", "R-FRAME-BALANCE", "R-9XXX", "R-PRECONSUME",
                         "R-POP-OWN", "R-DEPTH-GUARD"])
+    rules_cfg.r_charclass(cx)
 
 
 @prop("C17", 'R-BOM-ORDER (the BOM constant is only looked at in Lexer::new, where it is eaten once before the '
@@ -206,12 +220,14 @@ def c05(cx):
              'opener and closer), R-SPELL, R-NONEMPTY, R-KEYWORD-FLOW (every keyword of the table is looked up for '
              'the whole identifier), R-STOP-SET (the text scanner of a double-quoted literal ends its token only in '
              'front of the closing quote, end of input or a macro trigger as the property defines it; a whitespace '
-             'token only in front of a non-whitespace character), R-REPLAY-AGREE. Decides the '
+             'token only in front of a non-whitespace character), R-REPLAY-AGREE, structural R-CHARCLASS (identifier '
+             'character classes). Decides the '
              'statement-context flag and token-shape clauses, '
              'not equivalence with a reference lexer.')
 def c11(cx):
     lea_glue.apply(cx, ["R-PENDING", "R-DELIM-SHAPE", "R-NONEMPTY", "R-SPELL", "R-DATALINES-START", "R-ADVANCE-EVIDENCE",
                         "R-KEYWORD-FLOW", "R-STOP-SET", "R-REPLAY-AGREE"])
+    rules_cfg.r_charclass(cx)
 
 
 @prop("C15", 'R-STATE-INVENTORY (no state outside the lexer object), R-NO-ABSOLUTE (no control flow on history '
@@ -219,13 +235,14 @@ def c11(cx):
              "'no previous token' like ';' and ignores hidden tokens), R-CKPT (no checkpoint survives a closed "
              'boundary), R-FRAME-BALANCE and R-PENDING (pending-statement frames and the open-code flag are back '
              'to their initial value after a closed statement), R-POP-OWN (a step never pops modes of an enclosing '
-             'construct it has not identified). Decides that no channel other than the declared '
+             'construct it has not identified), R-PAYLOAD-RANGE (payload ranges are literal-buffer positions, so they '
+             'shift with the buffer a closed prefix left behind). Decides that no channel other than the declared '
              'configuration carries information across a closed boundary; not equality of results for all (A, B).')
 def c15(cx):
     rules_cfg.r_state_inventory(cx)
     rules_cfg.r_no_absolute(cx)
     rules_cfg.r_lookbehind(cx)
-    lea_glue.apply(cx, ["R-CKPT", "R-DATALINES-START", "R-FRAME-BALANCE", "R-PENDING", "R-POP-OWN"])
+    lea_glue.apply(cx, ["R-CKPT", "R-DATALINES-START", "R-FRAME-BALANCE", "R-PENDING", "R-POP-OWN", "R-PAYLOAD-RANGE"])
 
 
 @prop("C18", 'R-CFGDIFF-MACROSEP: structural diff of the feature-off and feature-on HIR: feature-only code may '
